@@ -113,13 +113,9 @@ def _in_domain(seq, name, p, c0, c1):
         return False                                     # kf_oneoff_unclipped
     if step is None and seq.exclusions is not None and seq.p_start in seq.exclusions:
         return False                                     # kf_oneoff_excluded
-    if name in ('get_next_point',) and step is not None and p < start - step:
-        return False                                     # kf_far_before_start
     if name in ('get_prev_point', 'get_nearest_prev_point'):
         if step is None and p > start:
-            return False                                 # kf_prev_far_or_oneoff
-        if step is not None and stop is not None and p > stop + step:
-            return False
+            return False                                 # kf_prev_far_or_oneoff (one-off part)
     return True
 
 
